@@ -23,8 +23,8 @@ Proof.
 Qed.
 
 (** * The operational stream is the aggregator run over the cycles of the history *)
-Definition cycles (x : ikind) (i : inst) (h : list op) : list (list (skey * Z)) :=
-  if is_async x then cycles_async i h [] else cycles_sync i h [].
+Definition cycles (x : ikind) (dl : bool) (i : inst) (h : list op) : list (list (skey * Z)) :=
+  if is_async x then cycles_async dl i h [] else cycles_sync dl i h [].
 
 Lemma vm_app x a b : vm x (a ++ b) = vm x a ++ vm x b.
 Proof. unfold vm. apply map_app. Qed.
@@ -35,16 +35,17 @@ Proof. unfold measure_all. apply fold_left_app. Qed.
 Lemma srun_sync x i t tm h : is_async x = false ->
   forall rs a n cur,
   srun x i t tm h {| s_regs := rs; s_agg := measure_all (cfg_of x t) (vm x cur) a; s_n := n |} =
-  arun (cfg_of x t) (map (vm x) (cycles_sync i h cur)) tm n a.
+  arun (cfg_of x t) (map (vm x) (cycles_sync (is_delta t) i h cur)) tm n a.
 Proof.
   intros Ha. induction h as [|o r IH]; intros rs a n cur; [reflexivity|].
-  destruct o as [i' k v|c insts|c|script fl]; cbn [srun sstep cycles_sync]; rewrite ?Ha; cbn [orb s_regs s_agg s_n].
+  destruct o as [i' k v|c insts|c|w script fl]; cbn [srun sstep cycles_sync]; rewrite ?Ha; cbn [orb s_regs s_agg s_n].
   - destruct (Nat.eqb i' i); cbn [negb app].
     + rewrite <- (IH rs a n (cur ++ [(k, v)])). rewrite vm_app, measure_all_app. reflexivity.
     + apply IH.
   - apply IH.
   - apply IH.
-  - cbn [map]. rewrite arun_cons.
+  - destruct (includes w (is_delta t)); cbn [negb app]; [|apply IH].
+    cbn [map]. rewrite arun_cons.
     destruct (collect (cfg_of x t) (tm n) (measure_all (cfg_of x t) (vm x cur) a)) as [out a2] eqn:E.
     cbn [fst snd app]. f_equal. apply (IH rs a2 (S n) []).
 Qed.
@@ -52,36 +53,40 @@ Qed.
 Lemma srun_async x i t tm h : is_async x = true ->
   forall rs a n,
   srun x i t tm h {| s_regs := rs; s_agg := a; s_n := n |} =
-  arun (cfg_of x t) (map (vm x) (cycles_async i h rs)) tm n a.
+  arun (cfg_of x t) (map (vm x) (cycles_async (is_delta t) i h rs)) tm n a.
 Proof.
   intros Ha. induction h as [|o r IH]; intros rs a n; [reflexivity|].
-  destruct o as [i' k v|c insts|c|script fl]; cbn [srun sstep cycles_async]; rewrite ?Ha; cbn [orb s_regs s_agg s_n].
+  destruct o as [i' k v|c insts|c|w script fl]; cbn [srun sstep cycles_async]; rewrite ?Ha; cbn [orb s_regs s_agg s_n].
   - apply IH.
   - apply IH.
   - apply IH.
-  - cbn [map]. rewrite arun_cons.
+  - destruct (includes w (is_delta t)); cbn [negb app]; [|apply IH].
+    cbn [map]. rewrite arun_cons.
     destruct (collect (cfg_of x t) (tm n) (measure_all (cfg_of x t) (vm x (delivered rs script i)) a)) as [out a2] eqn:E.
     cbn [fst snd app]. f_equal. apply IH.
 Qed.
 
 Lemma stream_arun x i t t0 tm h :
-  stream x i t t0 tm h = arun (cfg_of x t) (map (vm x) (cycles x i h)) tm 0 (new_agg t0).
+  stream x i t t0 tm h = arun (cfg_of x t) (map (vm x) (cycles x (is_delta t) i h)) tm 0 (new_agg t0).
 Proof.
   unfold stream, cycles. destruct (is_async x) eqn:Ha.
   - now apply srun_async.
   - apply (srun_sync x i t tm h Ha [] (new_agg t0) 0%nat []).
 Qed.
 
-Lemma cycles_sync_length i h : forall cur, length (cycles_sync i h cur) = length (filter (fun o => match o with Collect _ _ => true | _ => false end) h).
+Definition collects (dl : bool) (o : op) : bool := match o with Collect w _ _ => includes w dl | _ => false end.
+Lemma cycles_sync_length dl i h : forall cur, length (cycles_sync dl i h cur) = length (filter (collects dl) h).
 Proof.
-  induction h as [|o r IH]; intros cur; [reflexivity|]. destruct o; cbn; auto.
+  induction h as [|o r IH]; intros cur; [reflexivity|]. destruct o; cbn [cycles_sync filter collects]; auto.
+  destruct (includes who dl); cbn; auto.
 Qed.
-Lemma cycles_async_length i h : forall rs, length (cycles_async i h rs) = length (filter (fun o => match o with Collect _ _ => true | _ => false end) h).
+Lemma cycles_async_length dl i h : forall rs, length (cycles_async dl i h rs) = length (filter (collects dl) h).
 Proof.
-  induction h as [|o r IH]; intros rs; [reflexivity|]. destruct o; cbn; auto.
+  induction h as [|o r IH]; intros rs; [reflexivity|]. destruct o; cbn [cycles_async filter collects]; auto.
+  destruct (includes who dl); cbn; auto.
 Qed.
 
-Lemma stream_length x i t t0 tm h : length (stream x i t t0 tm h) = length (cycles x i h).
+Lemma stream_length x i t t0 tm h : length (stream x i t t0 tm h) = length (cycles x (is_delta t) i h).
 Proof. now rewrite stream_arun, arun_length, map_length. Qed.
 
 (** * Times *)
@@ -90,25 +95,25 @@ Proof. reflexivity. Qed.
 
 Lemma adjacent x i t0 tm h : Adjacent (stream x i Delta t0 tm h).
 Proof.
-  intros n Hn. rewrite stream_length in Hn. rewrite stream_arun.
-  change (o_start (nth (S n) (arun (cfg_of x Delta) (map (vm x) (cycles x i h)) tm 0 (new_agg t0)) odflt) =
-          o_time (nth n (arun (cfg_of x Delta) (map (vm x) (cycles x i h)) tm 0 (new_agg t0)) odflt)).
+  intros n Hn. rewrite stream_length in Hn. cbn [is_delta] in Hn. rewrite stream_arun. cbn [is_delta].
+  change (o_start (nth (S n) (arun (cfg_of x Delta) (map (vm x) (cycles x true i h)) tm 0 (new_agg t0)) odflt) =
+          o_time (nth n (arun (cfg_of x Delta) (map (vm x) (cycles x true i h)) tm 0 (new_agg t0)) odflt)).
   rewrite arun_nth_start_delta, arun_nth_time; rewrite ?map_length; try reflexivity; lia.
 Qed.
 
 Lemma delta_first_start x i t0 tm h : (0 < length (stream x i Delta t0 tm h))%nat ->
   s_start (nth 0 (stream x i Delta t0 tm h) dflt) = t0.
 Proof.
-  intros Hn. rewrite stream_length in Hn. rewrite stream_arun.
-  change (o_start (nth 0 (arun (cfg_of x Delta) (map (vm x) (cycles x i h)) tm 0 (new_agg t0)) odflt) = t0).
+  intros Hn. rewrite stream_length in Hn. cbn [is_delta] in Hn. rewrite stream_arun. cbn [is_delta].
+  change (o_start (nth 0 (arun (cfg_of x Delta) (map (vm x) (cycles x true i h)) tm 0 (new_agg t0)) odflt) = t0).
   rewrite arun_nth_start_delta; rewrite ?map_length; try reflexivity; lia.
 Qed.
 
 Lemma cum_start x i t0 tm h n : (n < length (stream x i Cumulative t0 tm h))%nat ->
   s_start (nth n (stream x i Cumulative t0 tm h) dflt) = t0.
 Proof.
-  intros Hn. rewrite stream_length in Hn. rewrite stream_arun.
-  change (o_start (nth n (arun (cfg_of x Cumulative) (map (vm x) (cycles x i h)) tm 0 (new_agg t0)) odflt) = t0).
+  intros Hn. rewrite stream_length in Hn. cbn [is_delta] in Hn. rewrite stream_arun. cbn [is_delta].
+  change (o_start (nth n (arun (cfg_of x Cumulative) (map (vm x) (cycles x false i h)) tm 0 (new_agg t0)) odflt) = t0).
   rewrite arun_nth_start_cum; rewrite ?map_length; try reflexivity; lia.
 Qed.
 
@@ -118,8 +123,8 @@ Proof. intros n m Hn Hm. now rewrite !cum_start. Qed.
 Lemma stream_time x i t t0 tm h n : (n < length (stream x i t t0 tm h))%nat ->
   s_time (nth n (stream x i t t0 tm h) dflt) = tm n.
 Proof.
-  intros Hn. rewrite stream_length in Hn. rewrite stream_arun.
-  change (o_time (nth n (arun (cfg_of x t) (map (vm x) (cycles x i h)) tm 0 (new_agg t0)) odflt) = tm n).
+  intros Hn. rewrite stream_length in Hn. cbn [is_delta] in Hn. rewrite stream_arun. cbn [is_delta].
+  change (o_time (nth n (arun (cfg_of x t) (map (vm x) (cycles x (is_delta t) i h)) tm 0 (new_agg t0)) odflt) = tm n).
   rewrite arun_nth_time; rewrite ?map_length; try reflexivity; lia.
 Qed.
 
@@ -135,7 +140,7 @@ Qed.
 Lemma all_sorted x i t t0 tm h : AllSorted (stream x i t t0 tm h).
 Proof.
   intros n Hn. rewrite stream_arun. rewrite psorted_ksorted.
-  change (ksorted (o_points (nth n (arun (cfg_of x t) (map (vm x) (cycles x i h)) tm 0 (new_agg t0)) odflt)) = true).
+  change (ksorted (o_points (nth n (arun (cfg_of x t) (map (vm x) (cycles x (is_delta t) i h)) tm 0 (new_agg t0)) odflt)) = true).
   now apply arun_sorted.
 Qed.
 
@@ -147,18 +152,73 @@ Lemma nth_vm x cyc n : nth n (map (vm x) cyc) [] = vm x (nth n cyc []).
 Proof. change [] with (vm x []) at 1. now rewrite map_nth. Qed.
 
 (** clause 1 *)
+Lemma concat_vm x cs : concat (map (vm x) cs) = vm x (concat cs).
+Proof. induction cs as [|c r IH]; [reflexivity|]. cbn [map concat]. now rewrite IH, vm_app. Qed.
+
+(** at a point where both readers collect, both have been fed the same measurements *)
+Lemma sync_concat i h : forall curD curC (accD accC : list (skey * Z)) nd0 nc0,
+  accD ++ curD = accC ++ curC ->
+  forall nd nc, In (nd, nc) (sync_points h nd0 nc0) ->
+  exists nd' nc', nd = (nd0 + nd')%nat /\ nc = (nc0 + nc')%nat /\
+    (nd' < length (cycles_sync true i h curD))%nat /\ (nc' < length (cycles_sync false i h curC))%nat /\
+    accD ++ concat (firstn (S nd') (cycles_sync true i h curD)) =
+    accC ++ concat (firstn (S nc') (cycles_sync false i h curC)).
+Proof.
+  induction h as [|o r IH]; intros curD curC accD accC nd0 nc0 Heq nd nc Hin; [destruct Hin|].
+  destruct o as [i' k v|c insts|c|w script fl]; cbn [sync_points cycles_sync] in *.
+  - apply (IH _ _ accD accC nd0 nc0); [|exact Hin].
+    destruct (Nat.eqb i' i); [|exact Heq]. now rewrite !app_assoc, Heq.
+  - now apply (IH _ _ accD accC nd0 nc0).
+  - now apply (IH _ _ accD accC nd0 nc0).
+  - destruct w as [|p]; [|destruct p as [p|p|]]; cbn [includes negb] in *.
+    + destruct Hin as [E|Hin].
+      * inversion E; subst. exists 0%nat, 0%nat. cbn [length firstn concat]. rewrite !app_nil_r.
+        repeat split; try lia. exact Heq.
+      * destruct (IH [] [] (accD ++ curD) (accC ++ curC) (S nd0) (S nc0) ltac:(now rewrite !app_nil_r) nd nc Hin)
+          as [nd' [nc' [E1 [E2 [L1 [L2 E3]]]]]].
+        exists (S nd'), (S nc'). cbn [length]. repeat split; try lia.
+        change (firstn (S (S nd')) (curD :: ?y)) with (curD :: firstn (S nd') y).
+        change (firstn (S (S nc')) (curC :: ?y)) with (curC :: firstn (S nc') y).
+        cbn [concat]. now rewrite !app_assoc.
+    + destruct (IH curD [] accD (accC ++ curC) nd0 (S nc0) ltac:(now rewrite app_nil_r) nd nc Hin)
+        as [nd' [nc' [E1 [E2 [L1 [L2 E3]]]]]].
+      exists nd', (S nc'). cbn [length]. repeat split; try lia.
+      change (firstn (S (S nc')) (curC :: ?y)) with (curC :: firstn (S nc') y).
+      cbn [concat]. now rewrite app_assoc.
+    + destruct (IH curD [] accD (accC ++ curC) nd0 (S nc0) ltac:(now rewrite app_nil_r) nd nc Hin)
+        as [nd' [nc' [E1 [E2 [L1 [L2 E3]]]]]].
+      exists nd', (S nc'). cbn [length]. repeat split; try lia.
+      change (firstn (S (S nc')) (curC :: ?y)) with (curC :: firstn (S nc') y).
+      cbn [concat]. now rewrite app_assoc.
+    + destruct (IH [] curC (accD ++ curD) accC (S nd0) nc0 ltac:(now rewrite app_nil_r) nd nc Hin)
+        as [nd' [nc' [E1 [E2 [L1 [L2 E3]]]]]].
+      exists (S nd'), nc'. cbn [length]. repeat split; try lia.
+      change (firstn (S (S nd')) (curD :: ?y)) with (curD :: firstn (S nd') y).
+      cbn [concat]. now rewrite app_assoc.
+Qed.
+
 Lemma running_delta x i t0 t0' tm tm' h : class_of x = CSyncAdd ->
-  RunningDelta (map s_points (stream x i Delta t0 tm h)) (map s_points (stream x i Cumulative t0' tm' h)).
+  RunningDelta (sync_points h 0 0) (map s_points (stream x i Delta t0 tm h)) (map s_points (stream x i Cumulative t0' tm' h)).
 Proof.
   intros Hx.
   assert (Ha : is_async x = false /\ kop x = OpAdd) by (destruct x; try discriminate; auto).
   destruct Ha as [Ha Ho].
-  split; [now rewrite !map_length, !stream_length|].
-  intros n k Hn. rewrite map_length, stream_length in Hn.
-  rewrite nth_points, pget_get. unfold running. rewrite running_from_fold. rewrite !stream_arun.
-  apply (arun_running (cfg_of x Delta) (cfg_of x Cumulative) (map (vm x) (cycles x i h)) tm tm') with (acc := fun _ => None); cbn;
-    rewrite ?Ha, ?Ho, ?map_length; try reflexivity; try exact Hn.
-  unfold is_presum_delta; cbn. now rewrite Ha, Ho.
+  intros nd nc k Hin.
+  destruct (sync_concat i h [] [] [] [] 0%nat 0%nat eq_refl nd nc Hin) as [nd' [nc' [E1 [E2 [L1 [L2 E3]]]]]].
+  cbn [Nat.add app] in *. subst nd' nc'.
+  assert (HcD : cycles x true i h = cycles_sync true i h []) by (unfold cycles; now rewrite Ha).
+  assert (HcC : cycles x false i h = cycles_sync false i h []) by (unfold cycles; now rewrite Ha).
+  rewrite nth_points, pget_get. unfold running. rewrite running_from_fold. rewrite !stream_arun. cbn [is_delta].
+  rewrite HcD, HcC.
+  change (map s_points ?l) with (map o_points l).
+  assert (H1 : a_op (cfg_of x Delta) = OpAdd) by exact Ho.
+  assert (H2 : clears (cfg_of x Delta) = true) by reflexivity.
+  assert (H3 : is_presum_delta (cfg_of x Delta) = false) by (unfold is_presum_delta; cbn; now rewrite Ha, Ho).
+  assert (H4 : clears (cfg_of x Cumulative) = false) by (cbn; exact Ha).
+  rewrite (arun_delta_running (cfg_of x Delta) _ tm H1 H2 H3 0%nat (new_agg t0) (S nd) k None eq_refl).
+  rewrite (arun_sofar (cfg_of x Cumulative) _ tm' H4) by (now rewrite map_length).
+  cbn [cfg_of a_op new_agg vals get]. rewrite Ho. cbn [ocomb oadd].
+  rewrite !firstn_map, !concat_vm. now rewrite E3.
 Qed.
 
 (** scalar instruments: the folded cycle value is the spec's cycle value *)
@@ -185,14 +245,14 @@ Proof. destruct x; intros H v; try reflexivity; contradiction. Qed.
 
 (** clause 3 *)
 Lemma async_cum x i t0 tm h : class_of x = CAsyncSum ->
-  AsyncCum (cycles_async i h []) (map s_points (stream x i Cumulative t0 tm h)).
+  AsyncCum (cycles_async false i h []) (map s_points (stream x i Cumulative t0 tm h)).
 Proof.
   intros Hx.
   assert (Ha : is_async x = true /\ kop x = OpAdd /\ forall v, vecof x v = [v]) by (destruct x; try discriminate; auto).
   destruct Ha as [Ha [Ho Hv]].
-  assert (Hc : cycles x i h = cycles_async i h []) by (unfold cycles; now rewrite Ha).
-  split; [now rewrite map_length, stream_length, Hc|].
-  intros n k Hn. rewrite nth_points, pget_get, stream_arun, Hc.
+  assert (Hc : cycles x false i h = cycles_async false i h []) by (unfold cycles; now rewrite Ha).
+  split; [rewrite map_length, stream_length; cbn [is_delta]; now rewrite Hc|].
+  intros n k Hn. rewrite nth_points, pget_get, stream_arun. cbn [is_delta]. rewrite Hc.
   assert (Hcl : clears (cfg_of x Cumulative) = true) by (cbn; exact Ha).
   assert (Hp : is_presum_delta (cfg_of x Cumulative) = false) by (unfold is_presum_delta; cbn; now rewrite Ho).
   rewrite (arun_cycle_exact _ _ _ Hcl Hp); [| reflexivity | now rewrite map_length].
@@ -200,29 +260,29 @@ Proof.
 Qed.
 
 Lemma async_delta x i t0 tm h : class_of x = CAsyncSum ->
-  AsyncDelta (cycles_async i h []) (map s_points (stream x i Delta t0 tm h)).
+  AsyncDelta (cycles_async true i h []) (map s_points (stream x i Delta t0 tm h)).
 Proof.
   intros Hx.
   assert (Ha : is_async x = true /\ kop x = OpAdd /\ forall v, vecof x v = [v]) by (destruct x; try discriminate; auto).
   destruct Ha as [Ha [Ho Hv]].
-  assert (Hc : cycles x i h = cycles_async i h []) by (unfold cycles; now rewrite Ha).
-  split; [now rewrite map_length, stream_length, Hc|].
-  intros n k Hn. rewrite nth_points, pget_get, stream_arun, Hc.
+  assert (Hc : cycles x true i h = cycles_async true i h []) by (unfold cycles; now rewrite Ha).
+  split; [rewrite map_length, stream_length; cbn [is_delta]; now rewrite Hc|].
+  intros n k Hn. rewrite nth_points, pget_get, stream_arun. cbn [is_delta]. rewrite Hc.
   assert (Hp : is_presum_delta (cfg_of x Delta) = true) by (unfold is_presum_delta; cbn; now rewrite Ho, Ha).
   rewrite (arun_presum_delta _ _ _ Hp 0%nat (new_agg t0) n k []);
     [| reflexivity | reflexivity | now rewrite map_length].
   rewrite nth_vm, (ofold_add_total x k _ Hv).
-  destruct (cyc_total k (nth n (cycles_async i h []) [])) as [y|]; [|reflexivity].
+  destruct (cyc_total k (nth n (cycles_async true i h []) [])) as [y|]; [|reflexivity].
   cbn [one option_map]. do 2 f_equal. destruct n as [|n]; cbn [prev_total sel map ofold fold_right ovz].
   - cbn. now rewrite Z.sub_0_r.
   - rewrite nth_vm, (ofold_add_total x k _ Hv).
-    destruct (cyc_total k (nth n (cycles_async i h []) [])) as [p|]; cbn; [now rewrite Z.add_opp_r | now rewrite Z.sub_0_r].
+    destruct (cyc_total k (nth n (cycles_async true i h []) [])) as [p|]; cbn; [now rewrite Z.add_opp_r | now rewrite Z.sub_0_r].
 Qed.
 
 (** clause 4 *)
 Lemma gauge_cycle x i t t0 tm h :
   (class_of x = CAsyncGauge \/ (class_of x = CSyncGauge /\ t = Delta)) ->
-  GaugeCycle (cycles x i h) (map s_points (stream x i t t0 tm h)).
+  GaugeCycle (cycles x (is_delta t) i h) (map s_points (stream x i t t0 tm h)).
 Proof.
   intros Hx.
   assert (Ho : kop x = OpSet /\ (forall v, vecof x v = [v]) /\ clears (cfg_of x t) = true /\ is_presum_delta (cfg_of x t) = false).
@@ -234,27 +294,25 @@ Proof.
   rewrite nth_vm. cbn [cfg_of a_op]. rewrite Ho. now apply ofold_set_last.
 Qed.
 
-Lemma concat_vm x cs : concat (map (vm x) cs) = vm x (concat cs).
-Proof. induction cs as [|c r IH]; [reflexivity|]. cbn [map concat]. now rewrite IH, vm_app. Qed.
 
 Lemma gauge_sofar x i t0 tm h : class_of x = CSyncGauge ->
-  GaugeSoFar (cycles_sync i h []) (map s_points (stream x i Cumulative t0 tm h)).
+  GaugeSoFar (cycles_sync false i h []) (map s_points (stream x i Cumulative t0 tm h)).
 Proof.
   intros Hx.
   assert (Ha : x = KGauge) by (destruct x; try discriminate; reflexivity). subst x.
-  assert (Hc : cycles KGauge i h = cycles_sync i h []) by reflexivity.
-  split; [now rewrite map_length, stream_length, Hc|].
-  intros n k Hn. rewrite nth_points, pget_get, stream_arun, Hc.
+  assert (Hc : cycles KGauge false i h = cycles_sync false i h []) by reflexivity.
+  split; [rewrite map_length, stream_length; cbn [is_delta]; now rewrite Hc|].
+  intros n k Hn. rewrite nth_points, pget_get, stream_arun. cbn [is_delta]. rewrite Hc.
   rewrite arun_sofar; try reflexivity; [|now rewrite map_length].
   cbn [new_agg vals get ocomb cfg_of a_op kop]. rewrite firstn_map, concat_vm.
   apply ofold_set_last. reflexivity.
 Qed.
 
 (** * An unregistered callback is silent *)
-Lemma cycles_sync_erase i c h : forall cur, cycles_sync i (erase_cb c h) cur = cycles_sync i h cur.
+Lemma cycles_sync_erase dl i c h : forall cur, cycles_sync dl i (erase_cb c h) cur = cycles_sync dl i h cur.
 Proof.
   induction h as [|o r IH]; intros cur; [reflexivity|].
-  destruct o; cbn [erase_cb map cycles_sync]; fold (erase_cb c r); now rewrite IH.
+  destruct o; cbn [erase_cb map cycles_sync]; fold (erase_cb c r); rewrite ?IH; reflexivity.
 Qed.
 
 Definition no_reg (c : cbid) (rs : list reg) : Prop := forall r, In r rs -> fst r <> c.
@@ -285,38 +343,40 @@ Proof.
   - intros r Hr. apply filter_In in Hr as [Hr _]. now apply Hn.
 Qed.
 
-Lemma cycles_async_erase i c h : forall rs, no_reg c rs -> forallb (fun o => negb (registers c o)) h = true ->
-  cycles_async i (erase_cb c h) rs = cycles_async i h rs.
+Lemma cycles_async_erase dl i c h : forall rs, no_reg c rs -> forallb (fun o => negb (registers c o)) h = true ->
+  cycles_async dl i (erase_cb c h) rs = cycles_async dl i h rs.
 Proof.
   induction h as [|o r IH]; intros rs Hn Hh; [reflexivity|].
   cbn [forallb] in Hh. apply andb_true_iff in Hh as [Ho Hh]. apply negb_true_iff in Ho.
-  destruct o as [i' k v|c' insts|c'|script fl]; cbn [erase_cb map cycles_async]; fold (erase_cb c r).
+  destruct o as [i' k v|c' insts|c'|w script fl]; cbn [erase_cb map cycles_async]; fold (erase_cb c r).
   - now apply IH.
   - apply IH; [|exact Hh]. now apply (no_reg_step c rs (Register c' insts)).
   - apply IH; [|exact Hh]. now apply (no_reg_step c rs (Unregister c')).
   - rewrite IH by assumption. now rewrite delivered_erase.
 Qed.
 
-Lemma cycles_sync_app i h1 h2 : forall cur,
-  exists cur', cycles_sync i (h1 ++ h2) cur = cycles_sync i h1 cur ++ cycles_sync i h2 cur' /\
-               forall c h2', cycles_sync i (h1 ++ erase_cb c h2') cur = cycles_sync i h1 cur ++ cycles_sync i (erase_cb c h2') cur'.
+Lemma cycles_sync_app dl i h1 h2 : forall cur,
+  exists cur', cycles_sync dl i (h1 ++ h2) cur = cycles_sync dl i h1 cur ++ cycles_sync dl i h2 cur' /\
+               forall c h2', cycles_sync dl i (h1 ++ erase_cb c h2') cur = cycles_sync dl i h1 cur ++ cycles_sync dl i (erase_cb c h2') cur'.
 Proof.
   induction h1 as [|o r IH]; intros cur.
   - exists cur. split; reflexivity.
-  - destruct o as [i' k v|c' insts|c'|script fl]; cbn [app cycles_sync].
+  - destruct o as [i' k v|c' insts|c'|w script fl]; cbn [app cycles_sync].
     + apply IH.
     + apply IH.
     + apply IH.
-    + destruct (IH []) as [cur' [H1 H2]]. exists cur'. split.
+    + destruct (includes w dl); [|apply IH].
+      destruct (IH []) as [cur' [H1 H2]]. exists cur'. split.
       * now rewrite H1.
       * intros c h2'. now rewrite H2.
 Qed.
 
-Lemma cycles_async_app i h1 h2 : forall rs,
-  cycles_async i (h1 ++ h2) rs = cycles_async i h1 rs ++ cycles_async i h2 (fold_left reg_step h1 rs).
+Lemma cycles_async_app dl i h1 h2 : forall rs,
+  cycles_async dl i (h1 ++ h2) rs = cycles_async dl i h1 rs ++ cycles_async dl i h2 (fold_left reg_step h1 rs).
 Proof.
   induction h1 as [|o r IH]; intros rs; [reflexivity|].
-  destruct o as [i' k v|c' insts|c'|script fl]; cbn [app cycles_async fold_left]; rewrite IH; reflexivity.
+  destruct o as [i' k v|c' insts|c'|w script fl]; cbn [app cycles_async fold_left]; rewrite IH; try reflexivity.
+  destruct (includes w dl); reflexivity.
 Qed.
 
 Lemma unregister_no_reg c rs : no_reg c (reg_step rs (Unregister c)).
@@ -325,13 +385,13 @@ Proof.
   now apply N.eqb_neq.
 Qed.
 
-Lemma cycles_unregistered x i c h1 h2 : forallb (fun o => negb (registers c o)) h2 = true ->
-  cycles x i (h1 ++ Unregister c :: erase_cb c h2) = cycles x i (h1 ++ Unregister c :: h2).
+Lemma cycles_unregistered x dl i c h1 h2 : forallb (fun o => negb (registers c o)) h2 = true ->
+  cycles x dl i (h1 ++ Unregister c :: erase_cb c h2) = cycles x dl i (h1 ++ Unregister c :: h2).
 Proof.
   intros Hh. unfold cycles. destruct (is_async x).
   - rewrite !cycles_async_app. f_equal. cbn [cycles_async].
     apply cycles_async_erase; [apply unregister_no_reg | exact Hh].
-  - destruct (cycles_sync_app i h1 (Unregister c :: h2) []) as [cur' [H1 H2]].
+  - destruct (cycles_sync_app dl i h1 (Unregister c :: h2) []) as [cur' [H1 H2]].
     rewrite H1. change (Unregister c :: erase_cb c h2) with (erase_cb c (Unregister c :: h2)).
     rewrite H2. f_equal. apply cycles_sync_erase.
 Qed.
@@ -374,23 +434,26 @@ Qed.
 
 Lemma gauge_last : forall x i h t0 t0' tm tm',
   (class_of x = CSyncGauge ->
-     GaugeCycle (cycles_sync i h []) (map s_points (stream x i Delta t0 tm h)) /\
-     GaugeSoFar (cycles_sync i h []) (map s_points (stream x i Cumulative t0' tm' h))) /\
+     GaugeCycle (cycles_sync true i h []) (map s_points (stream x i Delta t0 tm h)) /\
+     GaugeSoFar (cycles_sync false i h []) (map s_points (stream x i Cumulative t0' tm' h))) /\
   (class_of x = CAsyncGauge ->
-     GaugeCycle (cycles_async i h []) (map s_points (stream x i Delta t0 tm h)) /\
-     GaugeCycle (cycles_async i h []) (map s_points (stream x i Cumulative t0' tm' h))).
+     GaugeCycle (cycles_async true i h []) (map s_points (stream x i Delta t0 tm h)) /\
+     GaugeCycle (cycles_async false i h []) (map s_points (stream x i Cumulative t0' tm' h))).
 Proof.
   intros. split; intros Hx.
   - split; [|now apply gauge_sofar].
-    replace (cycles_sync i h []) with (cycles x i h) by (destruct x; try discriminate; reflexivity).
+    replace (cycles_sync true i h []) with (cycles x (is_delta Delta) i h) by (destruct x; try discriminate; reflexivity).
     apply gauge_cycle. right. now split.
-  - replace (cycles_async i h []) with (cycles x i h) by (destruct x; try discriminate; reflexivity).
-    split; apply gauge_cycle; now left.
+  - split.
+    + replace (cycles_async true i h []) with (cycles x (is_delta Delta) i h) by (destruct x; try discriminate; reflexivity).
+      apply gauge_cycle; now left.
+    + replace (cycles_async false i h []) with (cycles x (is_delta Cumulative) i h) by (destruct x; try discriminate; reflexivity).
+      apply gauge_cycle; now left.
 Qed.
 
 Lemma points_canonical : forall x i t t0 tm h,
   AllSorted (stream x i t t0 tm h) /\
-  length (stream x i t t0 tm h) = length (filter (fun o => match o with Collect _ _ => true | _ => false end) h).
+  length (stream x i t t0 tm h) = length (filter (collects (is_delta t)) h).
 Proof.
   intros. split; [apply all_sorted|]. rewrite stream_length. unfold cycles.
   destruct (is_async x); [apply cycles_async_length | apply cycles_sync_length].
@@ -398,12 +461,12 @@ Qed.
 
 (** * A callback that returns an error changes nothing but the error report *)
 Definition clear_fail (h : list op) : list op :=
-  map (fun o => match o with Collect s _ => Collect s [] | _ => o end) h.
+  map (fun o => match o with Collect w s _ => Collect w s [] | _ => o end) h.
 
-Lemma cycles_sync_clear_fail i h : forall cur, cycles_sync i (clear_fail h) cur = cycles_sync i h cur.
-Proof. induction h as [|o r IH]; intros cur; [reflexivity|]. destruct o; cbn [clear_fail map cycles_sync]; fold (clear_fail r); now rewrite IH. Qed.
-Lemma cycles_async_clear_fail i h : forall rs, cycles_async i (clear_fail h) rs = cycles_async i h rs.
-Proof. induction h as [|o r IH]; intros rs; [reflexivity|]. destruct o; cbn [clear_fail map cycles_async reg_step]; fold (clear_fail r); now rewrite IH. Qed.
+Lemma cycles_sync_clear_fail dl i h : forall cur, cycles_sync dl i (clear_fail h) cur = cycles_sync dl i h cur.
+Proof. induction h as [|o r IH]; intros cur; [reflexivity|]. destruct o; cbn [clear_fail map cycles_sync]; fold (clear_fail r); rewrite ?IH; reflexivity. Qed.
+Lemma cycles_async_clear_fail dl i h : forall rs, cycles_async dl i (clear_fail h) rs = cycles_async dl i h rs.
+Proof. induction h as [|o r IH]; intros rs; [reflexivity|]. destruct o; cbn [clear_fail map cycles_async reg_step]; fold (clear_fail r); rewrite ?IH; reflexivity. Qed.
 
 Lemma callback_error_harmless x i t t0 tm h : stream x i t t0 tm (clear_fail h) = stream x i t t0 tm h.
 Proof.
